@@ -279,6 +279,59 @@ def check_mesh(t, name, V0, F, vname, tier):
                     t.violation(f"contains_points: differs from the exact inside/outside classification [{en}; {vname}]", dict(case0, engine=en, point=P[i]), {"got": bool(c[i]), "want": bool(inside[i] == 1), "n_bad": int(len(bad))})
             except Exception as e:
                 t.violation(f"contains_points raises {type(e).__name__} [{en}; {vname}]", dict(case0, engine=en), {"exc": repr(e)[:200]})
+        # points (off the surface) whose parity ray along the library's fixed direction touches a mesh edge or
+        # vertex, so that contains_points has to take its disagreement / retry path; queried in one array together
+        # with points outside of the bounding box (culled first) in every position: before, between and after
+        dfix = np.array([0.4395064455, 0.617598629942, 0.652231566745])
+        edges = np.unique(np.sort(np.vstack([F[:, [0, 1]], F[:, [1, 2]], F[:, [2, 0]]]), axis=1), axis=0)
+        targets = np.vstack([V[edges].mean(axis=1), V[edges[:, 0]] * 0.75 + V[edges[:, 1]] * 0.25, V])
+        G = np.vstack([targets - sgn * sfrac * size * dfix for sgn in (1.0, -1.0) for sfrac in (0.23, 0.61, 1.37)])
+        lo, hi = V.min(axis=0), V.max(axis=0)
+        G = G[((G > lo) & (G < hi)).all(axis=1)]
+        if len(G):
+            dG, _ = closest_on_tris(G, tris)
+            G = G[dG.min(axis=1) > 1e-3 * size]
+        if len(G):
+            votes = []
+            for dvec in (np.array([1.0, 0.123, 0.0456]), np.array([-0.31, 1.0, 0.21]), np.array([0.17, -0.29, 1.0]), np.array([-0.57, -0.43, 0.71])):
+                dv = dvec / np.linalg.norm(dvec)
+                t2, u2, v2, det2 = moller_trumbore(G, np.tile(dv, (len(G), 1)), tris)
+                w2 = 1 - u2 - v2
+                h2 = (np.abs(det2) > 1e-12) & (t2 > 0) & (u2 > 0) & (v2 > 0) & (w2 > 0)
+                amb2 = (np.abs(det2) > 1e-12) & (t2 > -mt) & ((np.abs(u2) < mb) | (np.abs(v2) < mb) | (np.abs(w2) < mb)) & (u2 > -mb) & (v2 > -mb) & (w2 > -mb)
+                votes.append(np.where(amb2.any(axis=1), -1, h2.sum(axis=1) % 2))
+            votes = np.array(votes)
+            gin = np.full(len(G), -1)
+            for i in range(len(G)):
+                vals = [v for v in votes[:, i] if v >= 0]
+                if len(vals) >= 3 and len(set(vals)) == 1:
+                    gin[i] = vals[0]
+            outside_box = np.array([hi + size, lo - 2 * size, [hi[0] + size, lo[1], lo[2]]])
+            t.evaluations += len(G)
+            t.nontrivial_count += int((gin >= 0).sum())
+            for en, eng in engines.items():
+                for layout in ("alone", "after points outside of the bounding box", "between points outside of the bounding box"):
+                    if layout == "alone":
+                        Q, sl = G, slice(0, len(G))
+                    elif layout.startswith("after"):
+                        Q, sl = np.vstack([outside_box, G]), slice(3, 3 + len(G))
+                    else:
+                        Q = np.vstack([outside_box[:1], G[: len(G) // 2], outside_box[1:], G[len(G) // 2 :], outside_box[:1]])
+                        idx = np.r_[1 : 1 + len(G) // 2, 3 + len(G) // 2 : 3 + len(G)]
+                        sl = idx
+                    try:
+                        c = np.asarray(eng.contains_points(Q))
+                        cg = c[sl]
+                        rest = np.ones(len(Q), dtype=bool)
+                        rest[sl] = False
+                        if c[rest].any():
+                            t.violation(f"contains_points: a point outside of the bounding box is reported inside [{en}]", dict(case0, engine=en, layout=layout), {})
+                        bad = np.nonzero((gin >= 0) & (cg != (gin == 1)))[0]
+                        if len(bad):
+                            i = bad[0]
+                            t.violation(f"contains_points: differs from the exact classification for a point whose parity ray touches an edge or vertex [{en}; {layout}]", dict(case0, engine=en, point=G[i], layout=layout), {"got": bool(cg[i]), "want": bool(gin[i] == 1), "n_bad": int(len(bad))})
+                    except Exception as e:
+                        t.violation(f"contains_points raises {type(e).__name__} [{en}; grazing rays]", dict(case0, engine=en, layout=layout), {"exc": repr(e)[:200]})
     try:
         cp, cd, ct = m.nearest.on_surface(P)
         cp, cd, ct = np.asarray(cp), np.asarray(cd), np.asarray(ct)
@@ -343,6 +396,6 @@ def main(run):
         "exhaustive": True,
         "meshes": list(fam),
         "variants": list(VARIANTS),
-        "rule": "origin grid (4^3 quick / 6^3 thorough, inside and outside, shifted by a fixed generic offset) x 32 directions x both engines x {multiple hits, first hit (3 entry points), any}; point grid for containment (exact parity by 3 independent directions), closest point / distance / triangle, signed distance, nearest vertex; cases are judged only when every triangle is hit or missed by the margin 1e-4 (general position), counted in stats",
+        "rule": "origin grid (4^3 quick / 6^3 thorough, inside and outside, shifted by a fixed generic offset) x 32 directions x both engines x {multiple hits, first hit (3 entry points), any}; point grid for containment (exact parity by 3 independent directions) plus every point at 3 distances before and behind every edge midpoint, edge quarter point and vertex along the fixed parity direction (grazing rays: the retry path), queried alone, after and between points outside of the bounding box, closest point / distance / triangle, signed distance, nearest vertex; cases are judged only when every triangle is hit or missed by the margin 1e-4 (general position), counted in stats",
     }
     return run.finish(cov, assumptions=["general position margin: barycentrics and ray parameter at least 1e-4 (x size) from their boundaries; successive hits separated by 1e-3 x size for multi-hit queries", "embree works in float32: hit locations compared to 2e-5 x coordinate magnitude"])
